@@ -122,6 +122,16 @@ def stopped_tasks(quick):
             for k in range(2 if quick else 12):
                 swept.append({"scen": "retry", "params": ps, "strat": ["random", 11 + k, 0.6],
                               "gran": "line" if k % 2 else "sync", "facts": facts_of(ps)})
+    # ... and a SECOND cancel() at the very instant the retry thread deals with the stopped job (it has picked it and is
+    # about to resolve the future with the outcome of the last attempt): the cancel lands at every point of that handling
+    for fl in ("manual", "pool"):
+        p2 = {"flavour": fl, "policy": {"kind": "exc", "max_attempts": 3, "sleep": 400, "exponent": 1, "max_sleep": 400},
+              "jobs": [{"script": ["E", "V"], "S": 0, "C": False, "cancel_in_policy": 1, "K2": 300}],
+              "dur": 300, "horizon": 3000, "workers": 1}
+        for n in range(1, 80, 2 if quick else 1):
+            swept.append({"scen": "retry", "params": p2,
+                          "strat": ["phases", [["RetryExecutor-r", n, 300], ["cab1", 10000], ["RetryExecutor-r", 10000]]],
+                          "gran": "line", "facts": dict(facts_of(p2), directed=True)})
     return swept
 
 
